@@ -45,7 +45,7 @@ DECLARE_INPUTS
 /* ---------------------------------------------------------------- OS model */
 static unsigned src_pos, n_read, n_write;
 static uint8_t sink[SRC_MAX + 8];
-static unsigned sink_len;
+static unsigned sink_len, write_budget;
 static int fail_seen;          /* 1 = failfx(&ispec) 2 = failfx(&ospec) 3 = failf 4 = other */
 static int fail_errno;
 static int sigusr2_raised, halted, threads_created;
@@ -112,6 +112,7 @@ static ssize_t verif_write(int fd, const void *buf, size_t n)
   unsigned k = n_write++, put;
   (void)fd;
   PROP(n >= 1, "write() is never asked for zero bytes");
+  PROP(sink_len + n <= write_budget, "write() is never asked for more bytes than remain to be written (no over-read after a short write)");
   if (k >= NCALL) CUT();
   if (IN.wr[k] < 0) { errno = IN.err; return -1; }
   put = (unsigned)IN.wr[k]; if (put < 1) put = 1;      /* a successful write transfers at least one byte */
@@ -125,7 +126,7 @@ static ssize_t verif_write(int fd, const void *buf, size_t n)
 static void os_init(void)
 {
   ASSUME(IN.src_len <= SRC_MAX);
-  src_pos = 0; n_read = 0; n_write = 0; sink_len = 0; fail_seen = 0; fail_errno = 0;
+  src_pos = 0; n_read = 0; n_write = 0; sink_len = 0; fail_seen = 0; fail_errno = 0; write_budget = IN.src_len;
   sigusr2_raised = 0; halted = 0; threads_created = 0;
   ispec.fd = 0; ispec.total = 0; ispec.size = 0; ispec.sep = ""; ispec.fmt = "stdin";
   ospec.fd = 1; ospec.total = 0; ospec.sep = ""; ospec.fmt = "stdout";
@@ -200,7 +201,7 @@ void h_xwrite(void)
   os_init();
   ASSUME(n <= 8 && n <= IN.src_len);
   ospec.fd = (IN.outfd & 1) ? -1 : 1;
-  fail_seen = 0; H = H_XWRITE;
+  fail_seen = 0; H = H_XWRITE; write_budget = n;
   RUN_CUT(xwrite(IN.src, n));
   if (fail_seen) return;
   for (i = 0; i < NCALL; i++) PROP(i >= n_write || IN.wr[i] >= 0, "a failing write() never returns control to the caller (C21)");
